@@ -38,6 +38,14 @@ def run(ctx):
                     ctx.count('legacy-typed-transaction-refuses-segwit-input')
                     continue
                 cases.append(('sighash %s %d %s %d %d %s' % (raw.hex(), i, hexp(m['sc']), m['val'], ht, m['wt']), h, True))
+                if ht == 1 and not legacy_typed and i < 4:
+                    # asked without naming the kind of input: the digest for input i is the digest of THAT input's kind
+                    try:
+                        h0 = t.signature_hash(i).hex()
+                    except Exception as e:
+                        h0 = 'raise:' + type(e).__name__
+                    ctx.count('digest-by-input-number-only')
+                    cases.append(('sighash %s %d %s %d %d %s' % (raw.hex(), i, hexp(m['sc']), m['val'], 1, m['wt']), h0, True))
         # history: the transaction object is changed IN PLACE after digests were computed (same numbers of inputs and outputs);
         # the digests computed afterwards must be those of the transaction as it now is
         if not big and trial % 2 == 0:
